@@ -6,6 +6,7 @@ import (
 	"go/constant"
 	"go/token"
 	"go/types"
+	"reflect"
 	"strings"
 
 	"golang.org/x/tools/go/ssa"
@@ -314,6 +315,9 @@ func ruleBuildGuards(c *Ctx) {
 
 	// duplicates: stores into fieldsByIndex[i] dominated by the codec != nil test on the same slot
 	sameSlot := func(x, y ssa.Value) bool {
+		if x == y {
+			return true
+		}
 		ix, ok1 := x.(*ssa.IndexAddr)
 		iy, ok2 := y.(*ssa.IndexAddr)
 		if !ok1 || !ok2 {
@@ -328,15 +332,38 @@ func ruleBuildGuards(c *Ctx) {
 		fy, ok2 := ly.X.(*ssa.FieldAddr)
 		return ok1 && ok2 && fx.X == fy.X && fx.Field == fy.Field
 	}
+	// the table: c.fieldsByIndex itself, or a local that is stored into that field (an alias
+	// made before the loop: byIndex := make(...); c.fieldsByIndex = byIndex)
+	tableBase := func(v ssa.Value) bool {
+		if ld, ok := v.(*ssa.UnOp); ok {
+			if fa, ok := ld.X.(*ssa.FieldAddr); ok && fieldName(fa) == "fieldsByIndex" {
+				return true
+			}
+		}
+		if refs := v.Referrers(); refs != nil {
+			for _, r := range *refs {
+				if st, ok := r.(*ssa.Store); ok && st.Val == v {
+					if fa, ok := st.Addr.(*ssa.FieldAddr); ok && fieldName(fa) == "fieldsByIndex" {
+						return true
+					}
+				}
+			}
+		}
+		return false
+	}
 	isTable := func(v ssa.Value) *ssa.IndexAddr {
+		// a store to one field of the slot (slot.codec = …) addresses the slot too
+		if fa, ok := v.(*ssa.FieldAddr); ok {
+			if _, isIA := fa.X.(*ssa.IndexAddr); isIA {
+				v = fa.X
+			}
+		}
 		ia, ok := v.(*ssa.IndexAddr)
 		if !ok {
 			return nil
 		}
-		if ld, ok := ia.X.(*ssa.UnOp); ok {
-			if fa, ok := ld.X.(*ssa.FieldAddr); ok && fieldName(fa) == "fieldsByIndex" {
-				return ia
-			}
+		if tableBase(ia.X) {
+			return ia
 		}
 		return nil
 	}
@@ -637,17 +664,32 @@ func ruleMapConvention(c *Ctx) {
 			case strings.HasSuffix(texpr, ".Key()"):
 				okk, why = true, "map keys cannot be maps (Go forbids it)"
 			default:
-				// slice elements: guarded by the wire type switch rejecting WTSlice
-				if _, sw := p.wireSwitch(); sw != nil && fn.Obj.Name() == "CodecForTypeRegistry" {
-					encl := enclosingCase(fn.Decl.Body, call.Pos())
-					if encl != nil && encl.Pos() <= sw.Pos() && sw.End() <= encl.End() {
-						for _, st := range sw.Body.List {
-							cc := st.(*ast.CaseClause)
-							for _, e := range cc.List {
-								if constName(info, e) == "WTSlice" && clauseReturnsError(info, cc) {
-									okk, why = true, "guarded by the element wire type switch, which rejects counted (map/slice-of-struct) elements"
+				// slice elements: map codecs report the counted wire type (WTSlice), and a
+				// slice whose element codec reports it gets no codec at all (FEAS, as T.slicewrap)
+				if sf := p.ssaFunc("plenc.Plenc.CodecForTypeRegistry"); sf != nil && fn.Obj.Name() == "CodecForTypeRegistry" {
+					// is this call in the slice clause? reachable with Kind() == Slice, not with an invalid kind
+					inSlice := false
+					forceKind := func(k int64) *feas {
+						return feasibleUnder(sf, func(v ssa.Value) (constant.Value, bool) {
+							if cl, ok := v.(*ssa.Call); ok && cl.Common().IsInvoke() && cl.Common().Method.Name() == "Kind" {
+								if prm, ok := cl.Common().Value.(*ssa.Parameter); ok && typeName(prm.Type()) == "Type" {
+									return constant.MakeInt64(k), true
 								}
 							}
+							return nil, false
+						})
+					}
+					feS, fe0 := forceKind(int64(reflect.Slice)), forceKind(0)
+					for _, b := range sf.Blocks {
+						for _, in := range b.Instrs {
+							if cl, ok := in.(*ssa.Call); ok && cl.Pos() == call.Lparen {
+								inSlice = feS.reach[b] && !fe0.reach[b]
+							}
+						}
+					}
+					if kv, okv := p.wireTypeConst("WTSlice"); okv && inSlice {
+						if live, sawKind, sawWT := p.sliceLive(sf, kv); sawKind && sawWT && len(live) == 0 {
+							okk, why = true, "slices of elements with the counted wire type (maps, slices of structs) are given no codec"
 						}
 					}
 				}
